@@ -266,6 +266,7 @@ impl Process {
                     error!("{}", err);
                 });
             });
+        self.persist();
     }
 
     #[instrument()]
